@@ -18,6 +18,8 @@ type GenOpts struct {
 	Motifs      []string
 	NoExcRel    bool
 	Detach      float64 // probability of a handler that detaches a binding
+	Subs        float64 // probability that a case uses subscriptions
+	Dispose     float64 // probability that the case ends with a dispose + probes
 	FinalFaults float64 // share of faults placed in State/End handlers
 	WideOps     float64 // share of ops calling 3..4 states
 }
@@ -294,6 +296,48 @@ func genStates(r *rand.Rand, n int) []int {
 	return out
 }
 
+// genSub produces one subscription request in protocol form.
+func genSub(r *rand.Rand, s *Schema, ctxs []int, qtickHint int) string {
+	n := len(s.Defs)
+	ctx := "-"
+	if len(ctxs) > 0 && r.Float64() < 0.35 {
+		ctx = fmt.Sprint(ctxs[r.Intn(len(ctxs))])
+	}
+	distinct := func(k int) []int {
+		p := r.Perm(n)
+		if k > n {
+			k = n
+		}
+		return p[:k]
+	}
+	switch r.Intn(11) {
+	case 0, 1:
+		return fmt.Sprintf("when:%s:%s", showList(distinct(1+r.Intn(2))), ctx)
+	case 2:
+		return fmt.Sprintf("whennot:%s:%s", showList(distinct(1+r.Intn(2))), ctx)
+	case 3:
+		st := distinct(1 + r.Intn(2))
+		var ts []int
+		for range st {
+			ts = append(ts, r.Intn(5))
+		}
+		return fmt.Sprintf("whentime:%s:%s:%s", showList(st), showList(ts), ctx)
+	case 4:
+		return fmt.Sprintf("whenticks:%d:%d:%s", r.Intn(n), 1+r.Intn(3), ctx)
+	case 5:
+		return fmt.Sprintf("whennext:%d:%s", r.Intn(n), ctx)
+	case 6:
+		return fmt.Sprintf("whenquery:%d:%d:%s", r.Intn(n), 1+r.Intn(5), ctx)
+	case 7:
+		return fmt.Sprintf("whenargs:%d:%d:%s", r.Intn(n), r.Intn(2), ctx)
+	case 8:
+		return fmt.Sprintf("whenqueue:%d", qtickHint+r.Intn(4))
+	case 9:
+		return "whenqueueends"
+	}
+	return fmt.Sprintf("statectx:%d", r.Intn(n))
+}
+
 func GenCase(r *rand.Rand, o GenOpts) Case {
 	motif := "random"
 	if len(o.Motifs) > 0 {
@@ -404,8 +448,55 @@ func GenCase(r *rand.Rand, o GenOpts) Case {
 			tag += "+timeout"
 		}
 	}
+	useSubs := r.Float64() < o.Subs
+	var ctxs []int
+	nextId := 1
+	qhint := 2
+	if useSubs {
+		tag += "+subs"
+		// subscriptions from inside final handlers: the point between
+		// setActiveStates and processSubscriptions
+		if r.Float64() < 0.5 {
+			nb := 1
+			has := false
+			for _, l := range lines {
+				if strings.HasPrefix(l, "bind ") {
+					has = true
+					fmt.Sscan(l[5:], &nb)
+				}
+			}
+			if !has {
+				lines = append(lines, "bind 1")
+			}
+			b := r.Intn(nb)
+			k := 1 + r.Intn(2)
+			for j := 0; j < k; j++ {
+				h := fmt.Sprintf("state:%d", r.Intn(n))
+				if r.Intn(3) == 0 {
+					h = fmt.Sprintf("end:%d", r.Intn(n))
+				}
+				// ids inside handlers are assigned at run time, keep them context-free
+				lines = append(lines, fmt.Sprintf("rule %d %s %d t ~%s", b, h, r.Intn(2), genSub(r, s, nil, qhint)))
+				lines = append(lines, fmt.Sprintf("rule %d %s * t", b, h))
+			}
+			tag += "+hsubs"
+		}
+	}
 	nops := 3 + r.Intn(o.MaxOps)
 	for i := 0; i < nops; i++ {
+		if useSubs && r.Float64() < 0.45 {
+			switch {
+			case r.Float64() < 0.2 && nextId < 40:
+				lines = append(lines, "ctx new")
+				ctxs = append(ctxs, nextId)
+				nextId++
+			case len(ctxs) > 0 && r.Float64() < 0.15:
+				lines = append(lines, fmt.Sprintf("ctx cancel %d", ctxs[r.Intn(len(ctxs))]))
+			default:
+				lines = append(lines, "sub "+genSub(r, s, ctxs, qhint))
+			}
+		}
+		qhint++
 		st := showList(genStates(r, n))
 		if r.Float64() < o.WideOps {
 			st = showList(genStatesWide(r, n))
@@ -442,6 +533,25 @@ func GenCase(r *rand.Rand, o GenOpts) Case {
 			lines = append(lines, "remove "+st)
 		default:
 			lines = append(lines, "set "+st)
+		}
+	}
+	if r.Float64() < o.Dispose {
+		lines = append(lines, "dispose")
+		tag += "+dispose"
+		for k := 0; k < 3; k++ {
+			st := showList(genStates(r, n))
+			switch r.Intn(5) {
+			case 0:
+				lines = append(lines, "add "+st)
+			case 1:
+				lines = append(lines, "remove "+st)
+			case 2:
+				lines = append(lines, "canadd "+st)
+			case 3:
+				lines = append(lines, "sub "+genSub(r, s, nil, qhint))
+			default:
+				lines = append(lines, "set "+st)
+			}
 		}
 	}
 	return Case{Lines: lines, Tag: tag}
